@@ -301,7 +301,7 @@ func runC08(c *Ctx) {
 	p := c.P
 	w := newZWorld(p)
 	cone := decodeCone(p)
-	c.check(len(cone) >= 120, "O0", "decode cone size", "?", fmt.Sprintf("%d functions", len(cone)), fmt.Sprintf("the decode cone has only %d functions (about 150 expected): entry points lost", len(cone)))
+	c.check(len(cone) >= 100, "O0", "decode cone size", "?", fmt.Sprintf("%d functions", len(cone)), fmt.Sprintf("the decode cone has only %d functions (122 on the reference tree): entry points lost", len(cone)))
 	ord := map[string]int{}
 	lifted := map[*ssa.Function][]zreq{}
 	nObl := 0
@@ -1258,22 +1258,53 @@ func checkFrameLimits(c *Ctx, w *zworld) {
 		if lengthV == nil {
 			c.und("O3", "recvPacket frame length", p.Pos(rp.Pos()), "cannot find the decoded frame length")
 		} else {
-			lt := z.term(lengthV)
+			// the sites are recognised by the value they size with: the decoded length, directly or through the
+			// join of a helper that validated it (a phi once the helper is inlined), and the goals are stated
+			// on that size
+			var fromLength func(v ssa.Value, d int) bool
+			fromLength = func(v ssa.Value, d int) bool {
+				if v == lengthV {
+					return true
+				}
+				if d > 4 {
+					return false
+				}
+				switch x := v.(type) {
+				case *ssa.Convert:
+					return fromLength(x.X, d+1)
+				case *ssa.ChangeType:
+					return fromLength(x.X, d+1)
+				case *ssa.Phi:
+					for _, e := range x.Edges {
+						if fromLength(e, d+1) {
+							return true
+						}
+					}
+				}
+				return false
+			}
 			n := 0
 			eachInstr(rp, func(in ssa.Instruction) {
 				// the body allocation and the body read
-				isBodyRead := false
-				if call, ok := in.(*ssa.Call); ok && callIs(&call.Call, "io.ReadFull") && dominates(lengthV.(ssa.Instruction), in) {
-					isBodyRead = true
+				var size ssa.Value
+				isMake := false
+				switch x := in.(type) {
+				case *ssa.Call:
+					if callIs(&x.Call, "io.ReadFull") && len(x.Call.Args) == 2 {
+						if sl, ok := x.Call.Args[1].(*ssa.Slice); ok && sl.High != nil && fromLength(sl.High, 0) {
+							size = sl.High
+						}
+					}
+				case *ssa.MakeSlice:
+					if fromLength(x.Len, 0) {
+						size, isMake = x.Len, true
+					}
 				}
-				_, isMake := in.(*ssa.MakeSlice)
-				if isMake && !dominates(lengthV.(ssa.Instruction), in) {
-					isMake = false
-				}
-				if !isBodyRead && !isMake {
+				if size == nil {
 					return
 				}
 				n++
+				lt := z.term(size)
 				up := lt.clone()
 				up.c -= 256 * 1024
 				ok1, _ := z.prove(in, []lin{up})
